@@ -590,6 +590,15 @@ def r10_8_each_class_once(ctx, rid='R10.8'):
                    and any(isinstance(x, ast.Name) and x.id in f.fi.params for x in ast.walk(c.comparators[0]))
                    and 'registered' not in norm(c.comparators[0]) and 'representers' not in norm(c.comparators[0])
                    and '__dict__' not in norm(c.comparators[0])]
+        # the record of visited classes is one set for the whole walk: a parameter that every recursive call hands down
+        vparams = {x.id for c in visited for x in ast.walk(c.comparators[0]) if isinstance(x, ast.Name) and x.id in f.fi.params}
+        for c in rec:
+            for vp in vparams:
+                pos = f.fi.params.index(vp) - 1        # self is not among the call's arguments
+                given = (len(c.args) > pos and norm(c.args[pos]) == vp) or any(k.arg == vp and norm(k.value) == vp for k in c.keywords)
+                r.check(given, '%s: the recursive call hands the visited set %s down' % (f.fi.qual, vp), f.key('visited-handed-down:%s' % vp),
+                        f.loc(c), 'the recursive call %s does not pass %s on: every branch of the walk starts with a fresh, empty record, so '
+                        'a base class reached along two paths (diamond inheritance) gets its %s applied twice' % (norm(c)[:60], vp, hook))
         once = (bool(over_mro) and not rec) or (bool(rec) and bool(visited)) or (not rec and not over_bases)
         r.check(once, '%s visits each class once' % f.fi.qual, f.key('visits-each-class-once'), f.loc(over_bases[0]) if over_bases else f.loc(),
                 '%s recurses over __bases__ without remembering which classes it has visited: with diamond inheritance (D(B, C), B(A), '
@@ -835,4 +844,29 @@ def r01_13_extras_partition(ctx, rid='R01.13'):
         check_part(ex, 'the extras', lambda k, ink: not (ink and k != '_yatiml_extra'), 'extras')
     elif ex is not None:
         r.fail(f.key('extras-type'), f.loc(), 'the value stored under "_yatiml_extra" is not a mapping built in this function (%s)' % str(ex)[:60])
+    r.done()
+
+
+def r02_19_tag_checks_read_the_document(ctx, rid='R02.19'):
+    """The seq/map tag tests of __process_node judge the tag the document carries: the retag `node.tag = __type_to_tag(..)` (which for
+    List/Dict types *writes* the plain seq/map tag) comes after them on every path, otherwise the test can never fail and
+    `!!set [1, 2]`, `!!python/tuple [..]`, `!mytag {..}` load as plain lists and dicts."""
+    P = ctx.P
+    r = ctx.rule(rid, 'the plain-tag checks for sequences and mappings come before the node is retagged: no `node.tag = __type_to_tag(..)` '
+                      'reaches a test of node.tag', floor=2)
+    f = fn(P, S.PN)
+    node = f.fi.params[1]
+    tests = [b for b in f.cfg.nodes if b.kind == 'test' and any(isinstance(x, ast.Attribute) and x.attr == 'tag' and norm(x.value) == node
+                                                                for x in ast.walk(b.ast))
+             and any(isinstance(x, ast.Constant) and isinstance(x.value, str) and x.value.startswith('tag:yaml.org,2002:') for x in ast.walk(b.ast))]
+    retags = [n for n in f.walk() if isinstance(n, ast.Assign) and any(norm(t) == '%s.tag' % node for t in n.targets)
+              and '__type_to_tag(' in norm(n.value) and f.live(n)]
+    if not tests:
+        r.fail(f.key('no-tag-test'), f.loc(), '__process_node no longer tests the tag of sequence / mapping nodes')
+    for t in tests:
+        early = [s_ for s_ in retags if t.id in f.cfg.reachable(f.nid(s_)) and f.nid(s_) != t.id]
+        r.check(not early, 'test `%s` reads the tag the document carries' % norm(t.ast)[:50], f.key('tag-test-after-retag:%s' % norm(t.ast)[:40]),
+                f.loc(t.ast), 'the node is retagged (%s) before `%s` is evaluated: the test compares the tag that was just written, it can '
+                'never fail, and collections with any explicit tag (!!set, !!python/tuple, !custom) are accepted as plain lists / dicts'
+                % (norm(early[0])[:50] if early else '', norm(t.ast)[:50]))
     r.done()
